@@ -113,6 +113,11 @@ where
         // POSIX TZ: "SIM5" = 5 hours west of UTC, "SIM-9" = 9 hours east. No simulated process is
         // running while the variable changes (they run one at a time, this thread starts them).
         std::env::set_var("TZ", format!("SIM{}", h));
+        // (libc caches the zone for localtime_r: an implementation that goes through libc must see the change)
+        extern "C" {
+            fn tzset();
+        }
+        unsafe { tzset() };
     }
     let (done_tx, done_rx) = std::sync::mpsc::channel::<()>();
     crate::interpose::mark_driver_thread();
